@@ -52,3 +52,27 @@ func init() {
 		Edit{v, "\t\tif fc.WindowStart < ms.base.childHeight() {\n\t\t\treturn fmt.Errorf(\"file contract %v has window that starts in the past\", i)\n\t\t} else if fc.WindowEnd <= fc.WindowStart {\n\t\t\treturn fmt.Errorf(\"file contract %v has window that ends before it begins\", i)\n\t\t}",
 			"\t\tif fc.WindowEnd <= fc.WindowStart {\n\t\t\treturn fmt.Errorf(\"file contract %v has window that ends before it begins\", i)\n\t\t} else if ch := ms.base.childHeight(); fc.WindowStart < ch {\n\t\t\treturn fmt.Errorf(\"file contract %v has window that starts in the past\", i)\n\t\t}"})
 }
+
+func init() {
+	// ---- C02 ----
+	v := "consensus/validation.go"
+	a := "consensus/application.go"
+	mut("C02", "delete the ms.spent test for v2 siafund inputs", true, "v2-spent-set:SiafundInputs",
+		Edit{v, "\t\tif txid, ok := ms.spent(sfi.Parent.ID); ok {\n\t\t\treturn fmt.Errorf(\"siafund input %v double-spends parent output (previously spent in %v)\", i, txid)\n\t\t} else if j, ok := spent[sfi.Parent.ID]; ok {", "\t\tif j, ok := spent[sfi.Parent.ID]; ok {"})
+	mut("C02", "v2 resolutions: parent check skipped for expirations", true, "FileContractResolutions",
+		Edit{v, "\t\tif err := validateParent(fcr.Parent.Share()); err != nil {\n\t\t\treturn fmt.Errorf(\"file contract renewal %v parent (%v) %s\", i, fcr.Parent.ID, err)\n\t\t}", "\t\tif _, isExp := fcr.Resolution.(*types.V2FileContractExpiration); !isExp {\n\t\t\tif err := validateParent(fcr.Parent.Share()); err != nil {\n\t\t\t\treturn fmt.Errorf(\"file contract renewal %v parent (%v) %s\", i, fcr.Parent.ID, err)\n\t\t\t}\n\t\t}"})
+	mut("C02", "validateSupplement: drop the loop over txn.StorageProofs", true, "v1-supplement-live:StorageProofs",
+		Edit{v, "\t\tfor _, sps := range txn.StorageProofs {\n\t\t\tif !s.Elements.containsUnresolvedFileContractElement(sps.FileContract.Share()) {\n\t\t\t\treturn fmt.Errorf(\"valid file contract %v is not present in the accumulator\", sps.FileContract.ID)\n\t\t\t}\n\t\t}\n", ""})
+	mut("C02", "resolve recorder for v2 contracts: drop ms.spends[fce.ID] = txid", true, "spend-recorded",
+		Edit{a, "\tfced.Resolution = res\n\tms.spends[fce.ID] = txid\n", "\tfced.Resolution = res\n\t_ = txid\n"})
+	mut("C02", "applied-leaf walker: pass false for the siafund spent flag", true, "leaf-flag|leaf/siafund",
+		Edit{a, "fn(siafundLeaf(&sfe.SiafundElement, sfe.Spent))", "fn(siafundLeaf(&sfe.SiafundElement, false))"})
+	mut("C02", "invert polarity of the v1 siacoin spent test", true, "v1-spent-set:SiacoinInputs",
+		Edit{v, "} else if txid, ok := ms.spent(types.Hash256(sci.ParentID)); ok {\n\t\t\treturn fmt.Errorf(\"siacoin input %v double-spends", "} else if txid, ok := ms.spent(types.Hash256(sci.ParentID)); !ok {\n\t\t\treturn fmt.Errorf(\"siacoin input %v double-spends"})
+	mut("C02", "v2 siacoin duplicate map never written", true, "dup-map-written|v2:SiacoinInputs",
+		Edit{v, "\t\tspent[sci.Parent.ID] = i\n", "\t\t_ = spent\n"})
+	mut("C02", "expiring contracts resolved without consulting the spent set", true, "spend-applied",
+		Edit{a, "\t\tif ms.isSpent(fce.ID) {\n\t\t\tcontinue\n\t\t}\n", ""})
+	mut("C02", "(benign) v1 siacoin input checks as separate if statements", false, "",
+		Edit{v, "\t\t\treturn fmt.Errorf(\"siacoin input %v has timelocked parent\", i)\n\t\t} else if txid, ok := ms.spent(types.Hash256(sci.ParentID)); ok {", "\t\t\treturn fmt.Errorf(\"siacoin input %v has timelocked parent\", i)\n\t\t}\n\t\tif txid, ok := ms.spent(types.Hash256(sci.ParentID)); ok {"})
+}
